@@ -1,5 +1,6 @@
 import Bxh.Props.C04
 import Bxh.Proofs.ExecGlob
+import Bxh.Proofs.ExecBlock
 /-!
 # C05 — one-to-many cross-chain transactions are all-or-nothing
 
@@ -373,6 +374,63 @@ theorem C05_history_failed_group_stays_failed (env : Env) (gid : GId) (is : List
       obtain ⟨st1, h1, h2⟩ := handleIBTP_glob_dead hh gid st hst hd
       change ∃ st', globState (runIbtps env r.1 rest) gid = some st' ∧ st'.dead = true
       exact ih r.1 st1 h1 h2
+
+-- ------------------------------------------------------------------------------------ block level
+theorem globState_congr {l l' : Led} (gid : GId) (h : l'.getS (.glob gid) = l.getS (.glob gid)) : globState l' gid = globState l gid := by
+  unfold globState; rw [h]
+
+/-- one transaction of a block (with its fee step, or reverted) keeps a dead group dead -/
+theorem applyTx_glob_dead (env : Env) (l : Led) (tx : Tx) (inv : Option String) (gid : GId) (st : Status)
+    (hst : globState l gid = some st) (hd : st.dead = true) :
+    ∃ st', globState (applyTx env l tx inv).1 gid = some st' ∧ st'.dead = true := by
+  have h0 : globState (txStart l) gid = some st := by rw [globState_congr gid (txStart_getS l _)]; exact hst
+  cases applyTx_effect env l tx inv with
+  | nothing h => exact ⟨st, by rw [globState_congr gid (h _)]; exact h0, hd⟩
+  | ibtp s i p env' r _ _ _ _ h5 h6 =>
+    obtain ⟨st', h7, h8⟩ := handleIBTP_glob_dead h5 gid st h0 hd
+    exact ⟨st', by rw [globState_congr gid (h6 _)]; exact h7, h8⟩
+  | bvm s c m args r _ h2 h3 =>
+    exact ⟨st, by rw [globState_congr gid (h3 _), globState_congr gid (applyBvm_glob h2 gid)]; exact h0, hd⟩
+
+/-- a whole block: transactions, timeout bookkeeping, timeout step -/
+theorem execBlock_glob_dead (cfg : Cfg) (n : Node) (txs : List (Tx × Bool)) (gid : GId) (st : Status)
+    (hst : globState n.led gid = some st) (hd : st.dead = true) :
+    ∃ st', globState (execBlock cfg n txs).1.led gid = some st' ∧ st'.dead = true := by
+  unfold execBlock
+  simp only
+  -- the serial loop
+  have loop : ∀ (ts : List (Tx × Bool)) (a : Acc) (s0 : Status), globState a.led gid = some s0 → s0.dead = true →
+      ∃ s1, globState (ts.foldl (txStep cfg n.cache (n.height + 1)) a).led gid = some s1 ∧ s1.dead = true := by
+    intro ts
+    induction ts with
+    | nil => intro a s0 h0 hd0; exact ⟨s0, h0, hd0⟩
+    | cons p rest ih =>
+      intro a s0 h0 hd0
+      simp only [List.foldl_cons]
+      obtain ⟨s1, h1, hd1⟩ : ∃ s1, globState (txStep cfg n.cache (n.height + 1) a p).led gid = some s1 ∧ s1.dead = true := by
+        unfold txStep; exact applyTx_glob_dead _ a.led p.1 _ gid s0 h0 hd0
+      exact ih _ s1 h1 hd1
+  obtain ⟨s1, h1, hd1⟩ := loop txs { led := n.led } st hst hd
+  rw [← applyTxs_eq] at h1
+  -- the timeout lists are other keys; the timeout step maps any group it touches to BEGIN_ROLLBACK
+  have h2 : globState (setTimeoutList cfg (applyTxs cfg n.cache (n.height + 1) n.led txs).led (n.height + 1) (txs.map (·.1))
+      (applyTxs cfg n.cache (n.height + 1) n.led txs).rcpts) gid = some s1 := by
+    rw [globState_congr gid (setTimeoutList_getS _ _ _ _ _ _ (by intro x e; cases e))]; exact h1
+  obtain ⟨s2, h3, hd2⟩ := setTimeoutRollback_glob_dead _ (n.height + 1) gid s1 h2 hd1
+  exact ⟨s2, h3, hd2⟩
+
+/-- **a failed or timed-out group never succeeds, over any history of blocks**: whatever the blocks contain (IBTPs, transfers,
+contract calls, valid or not, fees paid or not) and whatever times out in between -/
+theorem C05_block_history_failed_group_stays_failed (cfg : Cfg) (blocks : List (List (Tx × Bool))) (n : Node) (gid : GId) (st : Status)
+    (hst : globState n.led gid = some st) (hd : st.dead = true) :
+    ∃ st', globState (runBlocks cfg n blocks).led gid = some st' ∧ st'.dead = true := by
+  unfold runBlocks
+  induction blocks generalizing n st with
+  | nil => exact ⟨st, hst, hd⟩
+  | cons b rest ih =>
+    simp only [List.foldl_cons]
+    obtain ⟨s1, h1, hd1⟩ := execBlock_glob_dead cfg n b gid st hst hd
+    exact ih (execBlock cfg n b).1 s1 h1 hd1
 
 /-- non-vacuity: a group whose second child could not begin is dead (BEGIN_FAILURE), and the success receipt of its
 first child does not revive it -/
